@@ -62,6 +62,22 @@ let handle (line : string) : string =
                           List.map (fun m -> Printf.sprintf "%s %s %s %d" (sh m.M.ms_id) (sh m.M.ms_file) (sh m.M.ms_payload) (if m.M.ms_baked then 1 else 0)) ms)
      | M.BErr _ -> "tasks err"
      | M.BPanic -> "tasks panic")
+  | "rehash" :: rest ->
+    (* rehash <id> <threshold> <np> {new old dkg name}* <nm> {data sig rcpt event sender round offset}* (hex, "-" = empty) *)
+    let a = Array.of_list rest in
+    let hx s = if s = "-" then [] else bytes_of_hex s in
+    let i = ref 0 in
+    let nx () = let v = a.(!i) in incr i; v in
+    let id = hx (nx ()) in
+    let thr = z_of_dec (nx ()) in
+    let np = int_of_string (nx ()) in
+    let parts = List.init np (fun _ -> let n = hx (nx ()) in let o = hx (nx ()) in let d = hx (nx ()) in let nm = hx (nx ()) in
+                               { M.hp_new = n; hp_old = o; hp_dkg = d; hp_name = nm }) in
+    let nm = int_of_string (nx ()) in
+    let msgs = List.init nm (fun _ -> let d = hx (nx ()) in let s = hx (nx ()) in let r = hx (nx ()) in let e = hx (nx ()) in
+                              let sn = hx (nx ()) in let ro = hx (nx ()) in let off = z_of_dec (nx ()) in
+                              { M.hm_data = d; hm_sig = s; hm_rcpt = r; hm_event = e; hm_sender = sn; hm_round = ro; hm_offset = off }) in
+    "rehash " ^ hex_of_bytes (M.reinit_hash { M.hf_id = id; hf_threshold = thr; hf_parts = parts; hf_msgs = msgs })
   | "air" :: rest ->
     (* air <kind|R>... : kinds 1..4 DKG steps, 9 signing, R = stop, reopen, replay *)
     (* only the log length at a stop is observable on the implementation: other positions print "-" *)
